@@ -1,8 +1,9 @@
 #!/usr/bin/env python3
 """Runs every kept seeded change against the quick tier of its property's check (plus any extra checks recorded in its
-meta.json's detection map) and prints one line per seed. /repo must be clean; it is restored after every seed."""
+meta.json's detection map) and prints one line per seed. /repo (or $SEED_REPO, a scratch worktree of its HEAD) must be clean; it is restored after every seed."""
 import json, os, subprocess, sys, glob
 VERIF = os.path.dirname(os.path.dirname(os.path.abspath(__file__)))
+REPO = os.environ.get("SEED_REPO", "/repo")  # a scratch worktree of /repo's HEAD may be used instead of /repo itself
 only = sys.argv[1:]
 rows = []
 for d in sorted(glob.glob(os.path.join(VERIF, "seeded", "*"))):
@@ -15,7 +16,7 @@ for d in sorted(glob.glob(os.path.join(VERIF, "seeded", "*"))):
         print(rows[-1], flush=True)
         continue
     prop = sid[:3]
-    r = subprocess.run(["git", "-C", "/repo", "apply", "--check", os.path.join(d, "patch.diff")], capture_output=True, text=True)
+    r = subprocess.run(["git", "-C", REPO, "apply", "--check", os.path.join(d, "patch.diff")], capture_output=True, text=True)
     if r.returncode != 0:
         rows.append((sid, "does-not-apply", r.stderr.strip()[:80]))
         print(rows[-1], flush=True)
